@@ -11,10 +11,12 @@ use discret::verif_hooks::database::Error as DbError;
 use discret::verif_hooks::security::{base64_decode, base64_encode, Ed25519SigningKey, SigningKey};
 use std::collections::HashMap;
 
+pub const BASE: i64 = 1_700_000_000_000;
+
 #[derive(Clone, Debug, PartialEq, Eq, Hash)]
-pub struct UN { pub id: u64, pub date: i64, pub author: u64, pub key: u64, pub enabled: bool }
+pub struct UN { pub id: u64, pub date: i64, pub author: u64, pub key: u64, pub enabled: bool, pub cd: i64 }   // cdate = date + cd
 #[derive(Clone, Debug, PartialEq, Eq, Hash)]
-pub struct RN { pub id: u64, pub date: i64, pub author: u64, pub ent: u64, pub s: bool, pub a: bool }
+pub struct RN { pub id: u64, pub date: i64, pub author: u64, pub ent: u64, pub s: bool, pub a: bool, pub cd: i64 }
 #[derive(Clone, Debug, PartialEq, Eq, Hash)]
 pub struct ED { pub src: u64, pub label: u64, pub dest: u64, pub date: i64, pub author: u64 }
 #[derive(Clone, Debug, PartialEq, Eq)]
@@ -50,7 +52,7 @@ pub struct Ctx {
     cache_n: HashMap<String, Node>,
     cache_e: HashMap<ED, Edge>,
 }
-pub const NKEYS: u64 = 8;
+pub const NKEYS: u64 = 24;
 impl Ctx {
     pub fn new() -> Ctx {
         let keys: Vec<Ed25519SigningKey> = (0..=NKEYS).map(|k| Ed25519SigningKey::create_from(&[k as u8 + 1; 32])).collect();
@@ -84,11 +86,11 @@ impl Ctx {
     }
     pub fn user_node(&mut self, u: &UN) -> UserNode {
         let json = format!("{{\"32\":\"{}\",\"33\":{}}}", base64_encode(&self.vkey(u.key)), u.enabled);
-        UserNode { node: self.signed_node("u", u.id, u.date, u.date, "0.2", json, u.author) }
+        UserNode { node: self.signed_node("u", u.id, u.date + u.cd, u.date, "0.2", json, u.author) }
     }
     pub fn right_node(&mut self, r: &RN) -> EntityRightNode {
         let json = format!("{{\"32\":\"{}\",\"33\":{},\"34\":{}}}", ent_name(r.ent), r.s, r.a);
-        EntityRightNode { node: self.signed_node("r", r.id, r.date, r.date, "0.3", json, r.author) }
+        EntityRightNode { node: self.signed_node("r", r.id, r.date + r.cd, r.date, "0.3", json, r.author) }
     }
     pub fn edge(&mut self, e: &ED, src_entity: &str) -> Edge {
         if let Some(x) = self.cache_e.get(e) { if x.src_entity == src_entity { return x.clone(); } }
@@ -126,11 +128,11 @@ impl Ctx {
     pub fn un_of(&mut self, n: &Node) -> UN {
         let v: serde_json::Value = serde_json::from_str(n._json.as_ref().unwrap()).unwrap();
         let key = base64_decode(v["32"].as_str().unwrap().as_bytes()).unwrap();
-        UN { id: self.uid_ix(&n.id), date: n.mdate, author: self.key_ix(&n.verifying_key), key: self.key_ix(&key), enabled: v.get("33").and_then(|b| b.as_bool()).unwrap_or(true) }
+        UN { id: self.uid_ix(&n.id), date: n.mdate, author: self.key_ix(&n.verifying_key), key: self.key_ix(&key), enabled: v.get("33").and_then(|b| b.as_bool()).unwrap_or(true), cd: n.cdate - n.mdate }
     }
     pub fn rn_of(&mut self, n: &Node) -> RN {
         let v: serde_json::Value = serde_json::from_str(n._json.as_ref().unwrap()).unwrap();
-        RN { id: self.uid_ix(&n.id), date: n.mdate, author: self.key_ix(&n.verifying_key), ent: ent_ix(v["32"].as_str().unwrap()), s: v["33"].as_bool().unwrap(), a: v["34"].as_bool().unwrap() }
+        RN { id: self.uid_ix(&n.id), date: n.mdate, author: self.key_ix(&n.verifying_key), ent: ent_ix(v["32"].as_str().unwrap()), s: v["33"].as_bool().unwrap(), a: v["34"].as_bool().unwrap(), cd: n.cdate - n.mdate }
     }
     pub fn ed_of(&mut self, e: &Edge) -> ED {
         ED { src: self.uid_ix(&e.src), label: e.label.parse::<u64>().unwrap_or(99), dest: self.uid_ix(&e.dest), date: e.cdate, author: self.key_ix(&e.verifying_key) }
@@ -154,10 +156,10 @@ pub fn ent_ix(name: &str) -> u64 {
 
 // ---- Gallina printing
 pub fn un_coq(u: &UN) -> String {
-    format!("(Build_unode {} {} {} {} {})", gn(u.id), gz(u.date), gn(u.author), gn(u.key), gb(u.enabled))
+    format!("(Build_unode {} {} {} {} {} {})", gn(u.id), gz(u.date), gn(u.author), gn(u.key), gb(u.enabled), gz(u.date + u.cd))
 }
 pub fn rn_coq(r: &RN) -> String {
-    format!("(Build_rnode {} {} {} {} {} {})", gn(r.id), gz(r.date), gn(r.author), gn(r.ent), gb(r.s), gb(r.a))
+    format!("(Build_rnode {} {} {} {} {} {} {})", gn(r.id), gz(r.date), gn(r.author), gn(r.ent), gb(r.s), gb(r.a), gz(r.date + r.cd))
 }
 pub fn ed_coq(e: &ED) -> String {
     format!("(Build_edge {} {} {} {} {})", gn(e.src), gn(e.label), gn(e.dest), gz(e.date), gn(e.author))
@@ -176,16 +178,16 @@ pub fn probes_coq(p: &[(u64, u64, i64)]) -> String {
 }
 
 // ---- observation encoding (Run_C07.encode_result)
-fn enc_u(out: &mut Vec<i64>, kind: i64, g: u64, u: &UN) { out.extend([kind, g as i64, u.id as i64, u.date, u.author as i64, u.key as i64, u.enabled as i64, 0]); }
+fn enc_u(out: &mut Vec<i64>, kind: i64, g: u64, u: &UN) { out.extend([kind, g as i64, u.id as i64, u.date, u.author as i64, u.key as i64, u.enabled as i64, 0, u.date + u.cd]); }
 pub fn encode_result(r: &RM) -> Vec<i64> {
     let mut ents = vec![];
     let mut n = 0i64;
     for u in &r.anodes { enc_u(&mut ents, 1, 0, u); n += 1; }
     for g in &r.gnodes {
-        ents.extend([5, 0, g.id as i64, g.date, g.author as i64, 0, 0, 0]); n += 1;
+        ents.extend([5, 0, g.id as i64, g.date, g.author as i64, 0, 0, 0, 0]); n += 1;
         for u in &g.unodes { enc_u(&mut ents, 2, g.id, u); n += 1; }
         for u in &g.anodes { enc_u(&mut ents, 3, g.id, u); n += 1; }
-        for x in &g.rnodes { ents.extend([4, g.id as i64, x.id as i64, x.date, x.author as i64, x.ent as i64, x.s as i64, x.a as i64]); n += 1; }
+        for x in &g.rnodes { ents.extend([4, g.id as i64, x.id as i64, x.date, x.author as i64, x.ent as i64, x.s as i64, x.a as i64, x.date + x.cd]); n += 1; }
     }
     let mut eds = vec![];
     let mut m = 0i64;
@@ -260,3 +262,86 @@ pub fn err_code(e: &DbError) -> i64 {
         _ => 99,
     }
 }
+
+// ------------------------------------------------------------------ honest histories
+pub struct Hist { pub states: Vec<RM>, pub dates: Vec<i64> }
+
+pub fn real_room(ctx: &mut Ctx, r: &RM) -> discret::Room { ctx.room_node(r).parse().expect("honest definition parses") }
+
+pub fn add_u(list: &mut Vec<UN>, edges: &mut Vec<ED>, next: &mut u64, src: u64, label: u64, date: i64, author: u64, key: u64, enabled: bool) {
+    let id = *next; *next += 1;
+    list.push(UN { id, date, author, key, enabled, cd: 0 });
+    edges.push(ED { src, label, dest: id, date, author });
+}
+pub fn add_r(g: &mut AN, next: &mut u64, date: i64, author: u64, ent: u64, s: bool, a: bool) {
+    let id = *next; *next += 1;
+    g.rnodes.push(RN { id, date, author, ent, s, a, cd: 0 });
+    g.redges.push(ED { src: g.id, label: L_RIGHTS, dest: id, date, author });
+}
+pub fn new_group(rng: &mut Rng, room: &mut RM, next: &mut u64, gid: u64, date: i64, author: u64) {
+    let mut g = AN { id: gid, date, author, cdate: date, redges: vec![], rnodes: vec![], uedges: vec![], unodes: vec![], aedges: vec![], anodes: vec![] };
+    for _ in 0..rng.below(3) { add_r(&mut g, next, date, author, rng.below(3), rng.chance(1, 2), rng.chance(1, 3)); }
+    let mut seen = vec![];
+    for _ in 0..rng.below(3) { let k = 1 + rng.below(5); if !seen.contains(&k) { seen.push(k); add_u(&mut g.unodes, &mut g.uedges, next, gid, L_USERS, date, author, k, true); } }
+    if rng.chance(1, 2) { let k = 1 + rng.below(5); add_u(&mut g.anodes, &mut g.aedges, next, gid, L_UADMIN, date, author, k, true); }
+    room.gedges.push(ED { src: room.id, label: L_AUTHS, dest: gid, date, author });
+    room.gnodes.push(g);
+}
+
+/// an honest history of room `rid`: every step is one mutation by a key entitled at that date
+/// `uadmin_steps`: also let a user admin that is not a room administrator add users (accepted by the import of an
+/// update, refused by the local mutation path and by a peer that never saw the room: not a history a live room can have)
+pub fn honest(rng: &mut Rng, ctx: &mut Ctx, rid: u64, first_id: u64, first_gid: u64, steps: usize, creator: u64, also_admin: Option<u64>, uadmin_steps: bool) -> Hist {
+    let mut next = first_id;
+    let mut gid = first_gid;
+    let d0 = BASE + rng.range(0, 3) * 1000;
+    let mut room = RM { id: rid, cdate: d0, date: d0, author: creator, aedges: vec![], anodes: vec![], gedges: vec![], gnodes: vec![] };
+    add_u(&mut room.anodes, &mut room.aedges, &mut next, rid, L_ADMIN, d0, creator, creator, true);
+    if let Some(k) = also_admin { add_u(&mut room.anodes, &mut room.aedges, &mut next, rid, L_ADMIN, d0, creator, k, true); }
+    for _ in 0..(1 + rng.below(2)) { new_group(rng, &mut room, &mut next, gid, d0, creator); gid += 1; }
+    let mut states = vec![room.clone()];
+    let mut dates = vec![d0];
+    let mut d = d0;
+    for _ in 0..steps {
+        d += 1000 * rng.range(1, 3) + if rng.chance(1, 6) { DAY } else { 0 };
+        let cur = real_room(ctx, &room);
+        let admins: Vec<u64> = (1..=6).filter(|k| cur.is_admin(&ctx.vkey(*k), d)).collect();
+        let uadmins: Vec<(usize, u64)> = room.gnodes.iter().enumerate().flat_map(|(i, g)| {
+            let a = cur.authorisations.get(&ctx.uid(g.id)).unwrap();
+            (1..=6).filter(|k| a.can_admin_users(&ctx.vkey(*k), d)).map(|k| (i, k)).collect::<Vec<_>>() }).collect();
+        let ng = room.gnodes.len();
+        let uadmins: Vec<(usize, u64)> = if uadmin_steps { uadmins } else { uadmins.into_iter().filter(|(_, k)| admins.contains(k)).collect() };
+        if !uadmins.is_empty() && rng.chance(1, 4) {
+            // a user admin adds / disables a user of its group (the group row is not re-signed)
+            let (gi, a) = *rng.pick(&uadmins);
+            let g = &mut room.gnodes[gi];
+            let gid0 = g.id;
+            add_u(&mut g.unodes, &mut g.uedges, &mut next, gid0, L_USERS, d, a, 1 + rng.below(6), !rng.chance(1, 3));
+        } else if !admins.is_empty() {
+            let a = *rng.pick(&admins);
+            match rng.below(10) {
+                0..=1 => { // administrators: never disable the acting key itself (refused locally)
+                    let k = 1 + rng.below(6);
+                    let en = if k == a { true } else { !rng.chance(1, 3) };
+                    add_u(&mut room.anodes, &mut room.aedges, &mut next, rid, L_ADMIN, d, a, k, en);
+                    room.date = d; room.author = a;
+                }
+                2..=4 => { let g = &mut room.gnodes[rng.below(ng as u64) as usize]; let gid0 = g.id;
+                    add_u(&mut g.unodes, &mut g.uedges, &mut next, gid0, L_USERS, d, a, 1 + rng.below(6), !rng.chance(1, 3));
+                    if rng.chance(1, 2) { g.date = d; g.author = a; } }
+                5 => { let g = &mut room.gnodes[rng.below(ng as u64) as usize]; let gid0 = g.id;
+                    add_u(&mut g.anodes, &mut g.aedges, &mut next, gid0, L_UADMIN, d, a, 1 + rng.below(6), !rng.chance(1, 4));
+                    if rng.chance(1, 2) { g.date = d; g.author = a; } }
+                6..=7 => { let g = &mut room.gnodes[rng.below(ng as u64) as usize];
+                    add_r(g, &mut next, d, a, rng.below(3), rng.chance(1, 2), rng.chance(1, 3));
+                    if rng.chance(1, 2) { g.date = d; g.author = a; } }
+                8 => { if ng < 3 { new_group(rng, &mut room, &mut next, gid, d, a); gid += 1; room.date = d; room.author = a; } }
+                _ => { let g = &mut room.gnodes[rng.below(ng as u64) as usize]; g.date = d; g.author = a; } // renamed
+            }
+        }
+        states.push(room.clone());
+        dates.push(d);
+    }
+    Hist { states, dates }
+}
+
